@@ -63,6 +63,9 @@ func judge(r *vkit.Run, id string, res caseResult) (kind, msg string) {
 	if res.err != nil {
 		return "harness-error", res.err.Error()
 	}
+	if res.leak != "" && (id == "C15" || id == "C18") && !r.IsKnown(id+".goroutine-leak") {
+		return "goroutine-leak", "after Server.Close and closing every simulated socket, goroutines of the bubble are still blocked: " + res.leak
+	}
 	x := res.x
 	for i := range x.Findings {
 		f := &x.Findings[i]
